@@ -79,8 +79,13 @@ def long_streams(camp, rng, n):
         s = rfbgen.gen_session(rng, 1, None, want_success=True, native=rfbgen.RGB32, nmsgs=0, size=(64, 64))
         if not s.established:
             continue
-        kind = ["bells", "raw-updates", "mixed"][i % 3]
+        kind = ["bells", "raw-updates", "mixed", "big-cuttext"][i % 4]
         body = b""
+        if kind == "big-cuttext":
+            # a clipboard of several hundred KiB, then ordinary traffic, in one segment / in pieces
+            n = rng.choice([262145, 300000, 524288])
+            body += b"\x03\0\0\0" + struct.pack("!I", n) + bytes(rng.getrandbits(8) for _ in range(64)) * (n // 64) + b"z" * (n % 64)
+            body += b"\x02" + b"\0\0\0\x01" + struct.pack("!HHHHi", 1, 1, 2, 1, 0) + bytes(8)
         if kind in ("bells", "mixed"):
             body += b"\x02" * rng.randrange(700, 1500)
         if kind in ("raw-updates", "mixed"):
